@@ -1185,6 +1185,13 @@ func (s *appStream) realPrepare(r *tr.Rng, ptxs []*pendingTx, script *appsim.Blo
 		s.emit(po, fmt.Sprintf("err ;; %d transactions (cap 16)", len(out.txs)))
 		return
 	}
+	if os.Getenv("VERIF_DEBUG") != "" {
+		exp := admitted + flood
+		if exp > 15 {
+			exp = 15
+		}
+		fmt.Fprintf(os.Stderr, "# prepare-count exp=%d got=%d admitted=%d flood=%d expiring=%d\n", exp+1, len(out.txs), admitted, flood, expiring)
+	}
 	s.emit(po, fmt.Sprintf("ok ;; txs=%d", len(out.txs)))
 	// ... and every other validator checks it
 	eb, err := sim.DecodeEthBlockTx(out.txs[0])
